@@ -1512,6 +1512,11 @@ class BootstrapElectionModel(BaseElectionModel):
             aggregate_temp_column_name = "-".join(aggregate)
             all_units[aggregate_temp_column_name] = all_units[aggregate].agg("_".join, axis=1)
             dummies = pd.get_dummies(all_units[aggregate_temp_column_name])
+            # order the groups by their keys, as BaseElectionModel.get_aggregate_predictions orders its rows
+            # (the joined names sort differently when one key is a prefix of another, e.g. districts 1 and 10)
+            dummies = dummies[
+                all_units.drop_duplicates(aggregate_temp_column_name).sort_values(aggregate)[aggregate_temp_column_name]
+            ]
         else:
             # since aggregate is of length zero we can grab the first element
             dummies = pd.get_dummies(all_units[aggregate[0]])
@@ -1661,6 +1666,10 @@ class BootstrapElectionModel(BaseElectionModel):
             aggregate_temp_column_name = "-".join(aggregate)
             all_units[aggregate_temp_column_name] = all_units[aggregate].agg("_".join, axis=1)
             dummies = pd.get_dummies(all_units[aggregate_temp_column_name])
+            # same group order as in get_aggregate_predictions
+            dummies = dummies[
+                all_units.drop_duplicates(aggregate_temp_column_name).sort_values(aggregate)[aggregate_temp_column_name]
+            ]
         else:
             # since aggregate is of length one, we can grab the first element
             dummies = pd.get_dummies(all_units[aggregate[0]])
